@@ -114,6 +114,7 @@ func checkC10(c *an.Ctx) {
 	baseVariables(c, r, "C10.1")
 	// $ARGS is the runner's env entry: nothing inherited may be layered over the runner's env
 	processEnvEntry(c, "C10.1")
+	stableCombinators(c, "C10.1")
 
 	configVariablesFlow(c, "C10.2")
 	dashHandling(c, "C10.3")
@@ -441,6 +442,9 @@ func argsTail(p *an.Prog, v ssa.Value) (ok bool, why string, homes []*ssa.Functi
 			if call, ok := s2.(*ssa.Call); ok && strings.HasSuffix(an.ShortCallee(&call.Call), "cli/v2.Args).Slice") {
 				isArgs = true
 			}
+			if isArgsSlice(s2) {
+				isArgs = true
+			}
 		}
 		if !isArgs || sl.High != nil {
 			return false, "slice of " + an.Prov(sl.X), nil
@@ -506,8 +510,8 @@ func dashHandling(c *an.Ctx, rule string) {
 	eq := false
 	for _, h := range homes {
 		an.EachInstr(h, func(in ssa.Instruction) {
-			if bo, ok := in.(*ssa.BinOp); ok && bo.Op == token.EQL {
-				if s, ok := an.ConstString(bo.Y); ok && s == "--" {
+			if v, isV := in.(ssa.Value); isV {
+				if _, lit, isEq, ok := dashTest(v); ok && isEq && lit == "--" {
 					eq = true
 				}
 			}
@@ -548,17 +552,13 @@ func dashHandling(c *an.Ctx, rule string) {
 			l.Bound(ex)
 			sawTest := false
 			ex.Atom = func(v ssa.Value) (an.AVal, bool) {
-				bo, ok := v.(*ssa.BinOp)
-				if !ok || (bo.Op != token.EQL && bo.Op != token.NEQ) {
-					return an.AVal{}, false
-				}
-				s, isS := an.ConstString(bo.Y)
-				if !isS {
+				x, s, isEq, ok := dashTest(v)
+				if !ok {
 					return an.AVal{}, false
 				}
 				isElem := false
 				for _, e := range elems {
-					if an.SameValue(bo.X, e) {
+					if an.SameValue(x, e) {
 						isElem = true
 					}
 				}
@@ -567,9 +567,9 @@ func dashHandling(c *an.Ctx, rule string) {
 				}
 				if s == "--" {
 					sawTest = true
-					return an.ABool(bo.Op == token.EQL), true
+					return an.ABool(isEq), true
 				}
-				return an.ABool(bo.Op != token.EQL), true // the element is "--", so it differs from any other literal
+				return an.ABool(!isEq), true // the element is "--", so it differs from any other literal
 			}
 			ex.Effect = func(in ssa.Instruction, st *an.State) string {
 				if ci, ok := in.(ssa.CallInstruction); ok {
@@ -624,6 +624,49 @@ func dashHandling(c *an.Ctx, rule string) {
 
 func missingKey(c *an.Ctx, r *runnerRoles, cc *ssa.Function, rule string) {
 	p := c.P
+	// nothing defines a variable behind the user's back: the command compiler writes no name into a variables
+	// container it was handed (its vars/env parameters, the compiler's own base set) — a name pre-defined as ""
+	// there is defined for every later command compiled against the same container, which then renders an
+	// undefined variable as empty
+	{
+		bad := false
+		nSets := 0
+		for _, f := range an.WithAnon(cc) {
+			an.EachInstr(f, func(in ssa.Instruction) {
+				call, ok := in.(*ssa.Call)
+				if !ok {
+					return
+				}
+				sc, ok := an.IsCallTo(call, fnSet, "(*pkg/variables.Variables).Set")
+				if !ok {
+					return
+				}
+				nSets++
+				recv := sc.Value
+				if !sc.IsInvoke() {
+					recv = sc.Args[0]
+				}
+				for _, src := range p.DeepSources(recv, 2, true) {
+					shared := ""
+					switch x := src.(type) {
+					case *ssa.Parameter:
+						shared = "its parameter " + x.Name()
+					case *ssa.UnOp:
+						if fa, ok := x.X.(*ssa.FieldAddr); ok {
+							shared = "the container held in " + an.TypeField(fa)
+						}
+					}
+					if shared != "" {
+						bad = true
+						c.Bad(rule, an.Short(cc)+":Set("+an.Prov(recv)+")", call.Pos(), "the command compiler defines a variable in %s, a container it shares with the commands compiled before and after this one: a name given a value here (an empty default, say) is no longer undefined for them", shared)
+					}
+				}
+			})
+		}
+		if !bad {
+			c.OK(rule, an.Short(cc)+":no-implicit-definitions", cc.Pos(), "the command compiler sets no variable in a container it was handed (%d Set calls looked at)", nSets)
+		}
+	}
 	rs := p.Func("pkg/utils", "", "RenderString")
 	if rs == nil {
 		c.Und(rule, "utils.RenderString", token.NoPos, "RenderString not found")
